@@ -27,6 +27,9 @@ func init() {
 }
 */
 
+// maxSnappyExpansion bounds decoded length / encoded length of a valid snappy block
+const maxSnappyExpansion = 32
+
 type snappyBuf struct {
 	buf []byte
 }
@@ -83,6 +86,12 @@ func (se snappyEncoding) Unmarshal(buf []byte, msg drpc.Message) (err error) {
 	decodedLen, err := snappy.DecodedLen(buf)
 	if err != nil {
 		return
+	}
+	// the declared length comes from the peer and is allocated before the block is decoded:
+	// refuse what no valid block of this size can expand to (a 3-byte copy element yields at
+	// most 64 bytes, i.e. less than 22x)
+	if decodedLen > maxSnappyExpansion*len(buf) {
+		return snappy.ErrCorrupt
 	}
 
 	var unmarshalBuf *snappyBuf
